@@ -50,6 +50,7 @@ def close(a, b):
 def density_self_consistent(self):
     """derived entries agree with the object's own per-type table (no model needed)"""
     ctx = _S['ctx']
+    total_first = getattr(self, 'total', None)       # read BEFORE pair / site are touched (even by hasattr): no reading order may matter
     if ctx is None or not hasattr(self, 'site'):
         return True
     ctx.hook('icontract.density_invariant')
@@ -68,8 +69,8 @@ def density_self_consistent(self):
             want = ra if a == b else ra + rb
             if not close(self.site[a, b][0], want) or not close(self.site[b, a][0], want):
                 ctx.violation('density:site-stale', 'site density (%s,%s)=%r but expected %r' % (a, b, self.site[a, b][0], want))
-    if hasattr(self, 'total') and any(self.density[t] is not None for t in self.types) and not close(self.total, tot):
-        ctx.violation('density:total-stale', 'total=%r but sum of assigned densities=%r' % (self.total, tot))
+    if hasattr(self, 'total') and any(self.density[t] is not None for t in self.types) and not (close(self.total, tot) and close(total_first, tot)):
+        ctx.violation('density:total-stale', 'total=%r (%r when read before pair/site) but sum of assigned densities=%r' % (self.total, total_first, tot))
     return True
 
 
